@@ -505,4 +505,52 @@ theorem rel_run (S : Sem T PJ X V A) (c : Config) (hk : c.keep = true) (hs : c.s
     | setRecalc => simp [Op.benign] at ho
     | poke v => simp [Op.benign] at ho
 
+/-! ### the user's own operations preserve indistinguishability -/
+
+theorem initF_setRecalc (f : Flags) :
+    initF { f with recalc := true } = { initF f with recalc := true } := by
+  unfold initF; split <;> simp_all
+
+theorem rel_setRecalc (S : Sem T PJ X V A) (c : Config) {x y : Flags × St PJ X V A} (h : Rel x y) :
+    Rel (apply S c .setRecalc x) (apply S c .setRecalc y) := by
+  obtain ⟨h1, h2, h3⟩ := h
+  refine ⟨?_, h2, ?_⟩
+  · show initF { x.1 with recalc := true } = initF { y.1 with recalc := true }
+    rw [initF_setRecalc, initF_setRecalc, h1]
+  · intro hs
+    have : (initF x.1).isSync = true := by
+      have e : (initF { x.1 with recalc := true }).isSync = (initF x.1).isSync := by
+        rw [initF_setRecalc]
+      exact e ▸ hs
+    exact h3 this
+
+theorem rel_poke (S : Sem T PJ X V A) (c : Config) (v : X × V) {x y : Flags × St PJ X V A}
+    (h : Rel x y) : Rel (apply S c (.poke v) x) (apply S c (.poke v) y) :=
+  ⟨h.1, h.2.1, fun _ => ⟨rfl, rfl⟩⟩
+
+/-- interleaving theorem over the full operation alphabet: the synchronize / read-only calls of an
+    arbitrary sequence can be dropped -/
+theorem rel_run_all (S : Sem T PJ X V A) (c : Config) (hk : c.keep = true) (hs : c.safe = false)
+    (σ : List (Op (X × V))) (x y : Flags × St PJ X V A) (h : Rel x y) :
+    Rel (run S c σ x) (run S c (σ.filter Op.isKept) y) := by
+  induction σ generalizing x y with
+  | nil => exact h
+  | cons o os ih =>
+    cases o with
+    | step =>
+      simp only [List.filter, Op.isKept, run]
+      exact ih _ _ (rel_step S c hs h)
+    | synchronize =>
+      simp only [List.filter, Op.isKept, run]
+      exact ih _ _ ((rel_sync S c hk x).symm.trans h)
+    | read =>
+      simp only [List.filter, Op.isKept, run]
+      exact ih _ _ h
+    | setRecalc =>
+      simp only [List.filter, Op.isKept, run]
+      exact ih _ _ (rel_setRecalc S c h)
+    | poke v =>
+      simp only [List.filter, Op.isKept, run]
+      exact ih _ _ (rel_poke S c v h)
+
 end RV.Sync
